@@ -491,7 +491,7 @@ func (m *model) discoverCounters() error {
 			if p := m.headerPhi(v); p != nil && isInt(p.Type()) {
 				return &counter{phi: p, name: name}
 			}
-			if k, u := m.cellKey(m.resolve(v)); k != "" && isInt(u.Type()) {
+			if k, _ := m.cellKey(m.resolve(v)); k != "" && isInt(v.Type()) {
 				return &counter{cell: k, name: name}
 			}
 			return nil
@@ -557,7 +557,7 @@ func (m *model) findCellIn(v ssa.Value, depth int) string {
 		return ""
 	}
 	v = m.resolve(v)
-	if k, u := m.cellKey(v); k != "" && isInt(u.Type()) {
+	if k, _ := m.cellKey(v); k != "" && isInt(v.Type()) {
 		return k
 	}
 	switch x := v.(type) {
